@@ -30,6 +30,9 @@
 (*         the orphanage                                                   *)
 (*   "D18" a cached update answered from the object cache always creates a *)
 (*         new Object, also when the full ID is already tracked            *)
+(*   "T1"  track_region_objects only registers the region manager: objects *)
+(*         a straggler update attributed to the region before its handshake*)
+(*         stay out of its local index                                     *)
 (*   "U1"  untrack_region_objects returns early for a region that has no   *)
 (*         region manager (never tracked): regionless objects attributed   *)
 (*         to it survive its unloading                                     *)
@@ -150,6 +153,14 @@ ClearRegion(S, t, r) ==
                  !.plink = [f \in FullIDs |-> IF f \in gone THEN NoF ELSE @[f]]]
 
 (********************** ClientWorldObjectManager ***************************)
+\* track_region_objects (repaired): the regionless objects attributed to the region are tracked by it
+RECURSIVE TrackAll(_, _, _)
+TrackAll(S, r, fs) == IF fs = {} THEN S
+                      ELSE LET f == CHOOSE x \in fs : TRUE
+                           IN TrackAll(TrackObject(S, r, f), r, fs \ {f})
+ATrack(S, r) == IF "T1" \in Bugs THEN S
+                ELSE TrackAll(S, r, {f \in S.fidx : S.ob[f].region = r})
+
 \* _run_object_update_hooks: resolves the futures of the object's CURRENT slot
 Hooks(S, t, f, ty) ==
     IF S.ob[f].region \in t THEN Resolve(S, S.ob[f].region, S.ob[f].local, ty) ELSE S
@@ -229,7 +240,7 @@ MNext ==
           Touch(k, r, l) /\ A' = ATouch(A, tracked, k, r, l)
     \/ \E f \in FullIDs : Props(f) /\ A' = AProps(A, tracked, f)
     \/ \E r \in Trackable, l \in Locals : Kill(r, l) /\ A' = KillLocal(A, r, l)
-    \/ \E r \in Trackable : Track(r) /\ A' = A
+    \/ \E r \in Trackable : Track(r) /\ A' = ATrack(A, r)
     \/ \E r \in Trackable : Teardown(r) /\ A' = ClearRegion(A, tracked, r)
     \/ \E r \in Trackable, l \in Locals, ty \in ReqTypes : Request(r, l, ty) /\ A' = Register(A, r, l, ty)
 MSpec == MInit /\ [][MNext]_mvars
